@@ -6,7 +6,7 @@ From TLV Require Import Base.Shape Base.PyList Base.Tensor Base.BigSum Base.Ops 
   Proofs.FactorizedProofs Proofs.FactorizedProofs2 Proofs.FactorizedProofs3 Proofs.FactorizedProofs4
   Proofs.FactorizedProofs5 Proofs.FactorizedProofs6 Proofs.FactorizedProofs7 Proofs.FactorizedProofs8
   Proofs.FactorizedProofs9 Proofs.FactorizedProofs10 Proofs.FactorizedProofs11 Proofs.FactorizedProofs12 Proofs.FactorizedProofs13 Proofs.FactorizedProofs14
-  Proofs.BaseProofs6 Proofs.FactorizedProofs15 Proofs.FactorizedProofs16.
+  Proofs.BaseProofs6 Proofs.FactorizedProofs15 Proofs.FactorizedProofs16 Proofs.FactorizedProofs17 Proofs.FactorizedProofs18.
 Import ListNotations.
 
 Definition is_ring {F : Type} (Op : fops F) : Prop :=
@@ -523,3 +523,140 @@ Theorem C03_tucker_einsum_eq_core_transposed : forall (F : Type) (Op : fops F), 
   tucker_to_tensor_einsum Op core fs skip true = tucker_to_tensor Op core fs skip true.
 Proof. exact tucker_einsum_eq_core_transposed. Qed.
 Print Assumptions C03_tucker_einsum_eq_core_transposed.
+
+(* ------------------------------------------------------------------ unfolded / vectorised views of the other five families *)
+(* views_of_entries d vec unf shp E (Proofs17) says: vec = Ok v with shape (prod shp,) and v[ravel idx] = E idx;  for every mode
+   m < order, unf m = Ok u with shape (shp_m, prod of the other sizes) and u[idx_m, row-major index of the other coordinates] = E idx;
+   every mode >= order is rejected.  In model and code these views are unfold / tensor_to_vec of the dense reconstruction; the
+   theorems give them entry-level statements in terms of the defining contraction, for whatever the validators accept *)
+Theorem C03_views_of_entries_unfold : forall (F : Type) (d : F) vec unf shp E,
+  views_of_entries F d vec unf shp E <->
+  (exists v, vec = Ok v /\ shape v = [prod shp] /\ forall idx, inb shp idx -> get d v [ravel shp idx] = E idx) /\
+  (forall m, m < length shp ->
+     exists u, unf m = Ok u /\ shape u = [nth m shp 0; prod (remove_nth m shp)] /\
+       forall idx, inb shp idx -> get d u [nth m idx 0; ravel (remove_nth m shp) (remove_nth m idx)] = E idx) /\
+  (forall m, length shp <= m -> unf m = Err).
+Proof. intros; reflexivity. Qed.
+Print Assumptions C03_views_of_entries_unfold.
+
+Theorem C03_tt_views : forall (F : Type) (Op : fops F), is_ring Op ->
+  forall (cs : list (tensor F)) (shp rk : list nat),
+  validate_tt cs = Ok (shp, rk) -> Forall (fun x => 0 < x) rk -> 0 < prod shp ->
+  views_of_entries F (f0 Op) (tt_to_vec Op cs) (tt_to_unfolded Op cs) shp (fun idx => chain F Op cs idx 0 0).
+Proof. exact tt_views. Qed.
+Print Assumptions C03_tt_views.
+
+Theorem C03_tr_views : forall (F : Type) (Op : fops F), is_ring Op ->
+  forall (cs : list (tensor F)) (shp rk : list nat),
+  validate_tr cs = Ok (shp, rk) -> Forall (fun x => 0 < x) rk -> 0 < prod shp ->
+  views_of_entries F (f0 Op) (tr_to_vec Op cs) (tr_to_unfolded Op cs) shp
+    (fun idx => fsumn Op (hd 0 rk) (fun a => chain F Op cs idx a a)).
+Proof. exact tr_views. Qed.
+Print Assumptions C03_tr_views.
+
+Theorem C03_tucker_views : forall (F : Type) (Op : fops F), is_ring Op ->
+  forall (core : tensor F) (fs : list (tensor F)) (shp rk : list nat),
+  validate_tucker core fs = Ok (shp, rk) -> wf core -> 0 < prod rk -> 0 < prod shp ->
+  views_of_entries F (f0 Op) (tucker_to_vec Op core fs None false) (fun m => tucker_to_unfolded Op core fs m None false) shp
+    (fun idx => sum_idx F (f0 Op) (fadd Op) rk (fun js => fmul Op (get (f0 Op) core js) (tk_prod F Op 0 None fs idx js))).
+Proof. exact tucker_views. Qed.
+Print Assumptions C03_tucker_views.
+
+(* with skip_factor (the skipped mode keeps the core's size and contributes the Kronecker delta) *)
+Theorem C03_tucker_views_skip : forall (F : Type) (Op : fops F), is_ring Op ->
+  forall (core : tensor F) (fs : list (tensor F)) (ns : list nat) (skip : option nat),
+  tk_shapes F 0 skip fs ns (shape core) -> wf core -> 0 < prod (shape core) -> 0 < prod ns ->
+  views_of_entries F (f0 Op) (tucker_to_vec Op core fs skip false) (fun m => tucker_to_unfolded Op core fs m skip false) ns
+    (fun idx => sum_idx F (f0 Op) (fadd Op) (shape core) (fun js => fmul Op (get (f0 Op) core js) (tk_prod F Op 0 skip fs idx js))).
+Proof. exact tucker_views_skip. Qed.
+Print Assumptions C03_tucker_views_skip.
+
+(* TT-matrix: the dense tensor has shape in sizes ++ out sizes; an index splits into its first N and last N coordinates *)
+Theorem C03_ttm_views : forall (F : Type) (Op : fops F), is_ring Op ->
+  forall (cs : list (tensor F)) (shp rk : list nat),
+  validate_ttm cs = Ok (shp, rk) -> Forall (fun x => 0 < x) rk -> 0 < prod shp ->
+  views_of_entries F (f0 Op) (ttm_to_vec Op cs) (ttm_to_unfolded Op cs) shp
+    (fun idx => chain4 F Op cs (interleave (firstn (length cs) idx) (skipn (length cs) idx)) 0 0).
+Proof. exact ttm_views. Qed.
+Print Assumptions C03_ttm_views.
+
+(* PARAFAC2: views of the zero-padded tensor of shape (I, max_i J_i, K) *)
+Theorem C03_parafac2_views : forall (F : Type) (Op : fops F), is_ring Op ->
+  (forall x y : F, feqb Op x y = true <-> x = y) ->
+  forall (w : option (tensor F)) (A B C : tensor F) (ps : list (tensor F)) (shps : list (list nat)) (R I : nat),
+  validate_parafac2 Op w [A; B; C] ps = Ok (shps, R) ->
+  shape A = [I; R] -> shape B = [R; R] -> w_ok F w R ->
+  0 < I -> 0 < fold_right Nat.max 0 (map (fun s => nth 0 s 0) shps) -> 0 < nrows C ->
+  views_of_entries F (f0 Op) (parafac2_to_vec Op w [A; B; C] ps) (parafac2_to_unfolded Op w [A; B; C] ps)
+    [I; fold_right Nat.max 0 (map (fun s => nth 0 s 0) shps); nrows C]
+    (fun idx => let i := nth 0 idx 0 in let j := nth 1 idx 0 in let k := nth 2 idx 0 in
+       if j <? nth 0 (nth i shps []) 0 then p2_entry F Op w A B C (nth i ps (mk [] [])) R R i j k else f0 Op).
+Proof. exact parafac2_views. Qed.
+Print Assumptions C03_parafac2_views.
+
+Example C03_tt_views_hyps :
+  let cs := [mk [1; 2; 2] [1; 2; 3; 4]%Z; mk [2; 3; 1] [1; 0; 2; -1; 1; 1]%Z] in
+  validate_tt cs = Ok ([2; 3], [1; 2; 1]) /\ Forall (fun x => 0 < x) [1; 2; 1] /\ 0 < prod [2; 3] /\
+  tt_to_unfolded Zops cs 1 = Ok (mk [3; 2] [-1; -1; 2; 4; 4; 10]%Z) /\ tt_to_vec Zops cs = Ok (mk [6] [-1; 2; 4; -1; 4; 10]%Z) /\
+  tt_to_unfolded Zops cs 2 = Err.
+Proof. exact tt_views_hyps. Qed.
+Example C03_ttm_views_hyps :
+  let cs := [mk [1; 2; 1; 2] [1; 2; 3; 4]%Z; mk [2; 1; 3; 1] [1; 0; 2; -1; 1; 1]%Z] in
+  validate_ttm cs = Ok ([2; 1; 1; 3], [1; 2; 1]) /\ 0 < prod [2; 1; 1; 3].
+Proof. exact ttm_views_hyps. Qed.
+Example C03_p2_views_hyps :
+  validate_parafac2 Zops (Some (mk [1] [3%Z])) [mk [2; 1] [1; 2]%Z; mk [1; 1] [1%Z]; mk [2; 1] [1; -1]%Z]
+                    [mk [2; 1] [0; 1]%Z; mk [1; 1] [-1]%Z] = Ok ([[2; 2]; [1; 2]], 1) /\
+  0 < fold_right Nat.max 0 (map (fun s => nth 0 s 0) [[2; 2]; [1; 2]]) /\ 0 < nrows (mk [2; 1] [1; -1]%Z).
+Proof. exact p2_views_hyps. Qed.
+
+(* ------------------------------------------------------------------ the einsum backend on operands that do not fit *)
+(* tucker_to_tensor_einsum_b is what the single np.einsum call of the einsum multi_mode_dot really computes (size-1 dimensions
+   broadcast, core modes beyond the last factor kept): the correspondence runs it on well-formed AND malformed operands.  It
+   extends the exact-shape model, so on well-formed input it is the core route *)
+Theorem C03_tucker_einsum_b_extends : forall (F : Type) (Op : fops F) (core : tensor F) (fs : list (tensor F)) (skip : option nat) (tr : bool) (t : tensor F),
+  tucker_to_tensor_einsum Op core fs skip tr = Ok t -> tucker_to_tensor_einsum_b Op core fs skip tr = Ok t.
+Proof. exact tucker_einsum_b_extends. Qed.
+Print Assumptions C03_tucker_einsum_b_extends.
+
+Theorem C03_tucker_einsum_b_eq_core : forall (F : Type) (Op : fops F), is_ring Op ->
+  forall (core : tensor F) (fs : list (tensor F)) (ns : list nat) (skip : option nat),
+  tk_shapes F 0 skip fs ns (shape core) -> wf core -> 0 < prod (shape core) -> 0 < prod ns ->
+  tucker_to_tensor_einsum_b Op core fs skip false = tucker_to_tensor Op core fs skip false.
+Proof. exact tucker_einsum_b_eq_core. Qed.
+Print Assumptions C03_tucker_einsum_b_eq_core.
+
+(* genuine defect (known finding): the reconstruction FUNCTIONS of Tucker / TT / TT-matrix do not validate; factor sets that the
+   validators reject -- and the core tenalg routes refuse -- are silently reconstructed: by np.einsum's broadcasting of size-1
+   dimensions (Tucker), by its summing over open boundary ranks / broadcasting of inner ranks (TT-matrix), and, under both
+   backends, by tt_to_tensor when the products of the ranks happen to fit *)
+Theorem C03_tucker_einsum_broadcast_refuted :
+  validate_tucker bc_core1 bc_fs1 = Err /\ tucker_to_tensor Zops bc_core1 bc_fs1 None false = Err /\
+  tucker_to_tensor_einsum_b Zops bc_core1 bc_fs1 None false = Ok (mk [2; 2] [30; 66; 75; 165]%Z) /\
+  validate_tucker bc_core2 bc_fs2 = Err /\ tucker_to_tensor Zops bc_core2 bc_fs2 None false = Err /\
+  tucker_to_tensor_einsum_b Zops bc_core2 bc_fs2 None false = Ok (mk [2; 2] [33; 75; 66; 150]%Z).
+Proof. exact tucker_einsum_broadcast_refuted. Qed.
+Print Assumptions C03_tucker_einsum_broadcast_refuted.
+Theorem C03_ttm_einsum_open_boundary_refuted :
+  validate_ttm bc_ttm1 = Err /\ ttm_to_tensor Zops bc_ttm1 = Err /\
+  ttm_to_tensor_einsum Zops bc_ttm1 = Ok (mk [2; 1; 1; 2] [4; 4; 4; 4]%Z) /\
+  validate_ttm bc_ttm2 = Err /\ ttm_to_tensor Zops bc_ttm2 = Err /\
+  ttm_to_tensor_einsum Zops bc_ttm2 = Ok (mk [2; 1; 1; 2] [3; 3; 3; 3]%Z).
+Proof. exact ttm_einsum_open_boundary_refuted. Qed.
+Print Assumptions C03_ttm_einsum_open_boundary_refuted.
+Theorem C03_tt_first_boundary_refuted :
+  validate_tt bc_tt = Err /\ exists t, tt_to_tensor Zops bc_tt = Ok t /\ shape t = [3; 4].
+Proof. exact tt_first_boundary_refuted. Qed.
+Print Assumptions C03_tt_first_boundary_refuted.
+
+(* the restricted statements that do hold: a genuine mismatch (neither side of size 1) is refused by the einsum routes as well *)
+Theorem C03_tucker_einsum_mismatch_rejected_partial : forall (F : Type) (Op : fops F) (core M : tensor F) (Ms : list (tensor F)) (c : nat) (cs' : list nat),
+  shape core = c :: cs' -> ndim M = 2 -> ncols M <> c -> ncols M <> 1 -> c <> 1 ->
+  tucker_to_tensor_einsum_b Op core (M :: Ms) None false = Err.
+Proof. exact tucker_einsum_mismatch_rejected_partial. Qed.
+Print Assumptions C03_tucker_einsum_mismatch_rejected_partial.
+Theorem C03_ttm_einsum_mismatch_rejected_partial : forall (F : Type) (Op : fops F) (G1 G2 : tensor F) (rest : list (tensor F)) (a b c e a' b' c' e' : nat),
+  shape G1 = [a; b; c; e] -> shape G2 = [a'; b'; c'; e'] -> e <> a' -> e <> 1 -> a' <> 1 ->
+  ttm_to_tensor_einsum Op (G1 :: G2 :: rest) = Err.
+Proof. exact ttm_einsum_mismatch_rejected_partial. Qed.
+Print Assumptions C03_ttm_einsum_mismatch_rejected_partial.
